@@ -862,7 +862,23 @@ func GetterLoad(v ssa.Value) (addr ssa.Value, ok bool) {
 	for _, b := range fn.Blocks {
 		for _, in := range b.Instrs {
 			switch x := in.(type) {
-			case *ssa.Store, *ssa.MapUpdate, *ssa.Send, *ssa.Go, *ssa.Defer, *ssa.Panic:
+			case *ssa.Defer:
+				// defer mu.Unlock() is the same critical section as an explicit Unlock before the return
+				cal := x.Call.StaticCallee()
+				if cal == nil {
+					return nil, false
+				}
+				switch FullName(cal) {
+				case "(*sync.Mutex).Unlock", "(*sync.RWMutex).RUnlock", "(*sync.RWMutex).Unlock":
+				default:
+					return nil, false
+				}
+			case *ssa.Store:
+				// the result spilled to its cell (functions with a defer keep named results in memory)
+				if _, toLocal := x.Addr.(*ssa.Alloc); !toLocal {
+					return nil, false
+				}
+			case *ssa.MapUpdate, *ssa.Send, *ssa.Go, *ssa.Panic:
 				return nil, false
 			case *ssa.Call:
 				cal := x.Call.StaticCallee()
@@ -876,9 +892,17 @@ func GetterLoad(v ssa.Value) (addr ssa.Value, ok bool) {
 					return nil, false
 				}
 			case *ssa.Return:
-				ld, isLoad := StripConv(x.Results[0]).(*ssa.UnOp)
+				ld, isLoad := StripConv(ReturnOperand(x, 0)).(*ssa.UnOp)
 				if !isLoad || ld.Op != token.MUL {
 					return nil, false
+				}
+				if cell, isCell := ld.X.(*ssa.Alloc); isCell {
+					// a local holding the field's value: err := c.writeErr; return err
+					if sv := cellSingleStore(cell); sv != nil {
+						if l2, ok := StripConv(sv).(*ssa.UnOp); ok && l2.Op == token.MUL {
+							ld = l2
+						}
+					}
 				}
 				if _, isField := ld.X.(*ssa.FieldAddr); !isField {
 					return nil, false
@@ -975,7 +999,7 @@ func ValueCases(v ssa.Value, use *ssa.BasicBlock) []ValueCase {
 					idx = k
 				}
 			}
-			walk(e, append(append([]Atom(nil), atoms...), EdgeAtoms(pred, idx)...), d+1)
+			walk(e, append(append([]Atom(nil), atoms...), RefineAtoms(pred, EdgeAtoms(pred, idx))...), d+1)
 		}
 	}
 	walk(v, GuardAtoms(use), 0)
@@ -1080,10 +1104,27 @@ func NewResolver(allConv bool) *Resolver {
 
 func (r *Resolver) expand(c *ssa.Call) *ssa.Return {
 	fn := c.Call.StaticCallee()
-	if fn == nil || c.Call.IsInvoke() || !InModule(fn) || len(fn.Blocks) == 0 || len(fn.Blocks) > 6 {
+	if fn == nil || c.Call.IsInvoke() || !InModule(fn) || len(fn.Blocks) == 0 || len(fn.Blocks) > 8 {
 		return nil
 	}
 	rets := Returns(fn)
+	if len(rets) > 1 {
+		// early exits that return constants only (if ctx == nil { return 0, false }) beside one computing return:
+		// the call stands for the computing one (the constant alternatives are the helper's "nothing" answers)
+		var computing []*ssa.Return
+		for _, rt := range rets {
+			allConst := true
+			for i := range rt.Results {
+				if _, isC := StripConv(ReturnOperand(rt, i)).(*ssa.Const); !isC {
+					allConst = false
+				}
+			}
+			if !allConst {
+				computing = append(computing, rt)
+			}
+		}
+		rets = computing
+	}
 	if len(rets) != 1 {
 		return nil
 	}
@@ -1132,4 +1173,82 @@ func (r *Resolver) V(v ssa.Value) ssa.Value {
 		return v
 	}
 	return v
+}
+
+// RefineAtoms adds facts that hold at block b by elimination: at a merge block above b, a predecessor edge whose own
+// atoms contradict what is already known at b (the same comparison with the opposite outcome on the same SSA values)
+// cannot be the way control came; what all remaining edges agree on holds at b.  This recovers, for example, atEOF
+// in `if x == -1 && !atEOF { return }; ...; if x == -1 { here }`.
+func RefineAtoms(b *ssa.BasicBlock, atoms []Atom) []Atom {
+	contradicts := func(a, k Atom) bool {
+		if a.LV == nil || k.LV == nil || a.LV != k.LV {
+			return false
+		}
+		sameR := (a.RV != nil && a.RV == k.RV) || (a.RV == nil && k.RV == nil && a.R == k.R) || a.R == k.R
+		if !sameR {
+			return false
+		}
+		return negOp[a.Op] == k.Op || (a.Op == "is" && k.Op == "not") || (a.Op == "not" && k.Op == "is")
+	}
+	out := append([]Atom(nil), atoms...)
+	have := map[string]bool{}
+	for _, a := range out {
+		have[a.String()] = true
+	}
+	for m, depth := b, 0; m != nil && depth < 6; m, depth = m.Idom(), depth+1 {
+		if len(m.Preds) < 2 {
+			continue
+		}
+		var common map[string]Atom
+		feasible := 0
+		for _, p := range m.Preds {
+			idx := 0
+			for k, sc := range p.Succs {
+				if sc == m {
+					idx = k
+				}
+			}
+			ea := EdgeAtoms(p, idx)
+			bad := false
+			for _, a := range ea {
+				for _, k := range out {
+					if contradicts(a, k) {
+						bad = true
+					}
+				}
+			}
+			if bad {
+				continue
+			}
+			feasible++
+			cur := map[string]Atom{}
+			for _, a := range ea {
+				cur[a.String()] = a
+			}
+			if common == nil {
+				common = cur
+			} else {
+				for k := range common {
+					if _, ok := cur[k]; !ok {
+						delete(common, k)
+					}
+				}
+			}
+		}
+		if feasible == 0 || feasible == len(m.Preds) {
+			continue // nothing eliminated: the dominating guards already say all there is
+		}
+		var ks []string
+		for k := range common {
+			ks = append(ks, k)
+		}
+		sort.Strings(ks)
+		for _, k := range ks {
+			if !have[k] {
+				have[k] = true
+				out = append(out, common[k])
+			}
+		}
+	}
+	return out
 }
